@@ -62,7 +62,7 @@ pub fn native_cases(ctx: &Ctx, out: &mut Vec<Case>) {
             rand_fe(rng)
         }
     };
-    let reps = if ctx.quick() { 3 } else { 12 };
+    let reps = if !ctx.thorough() { 3 } else { 12 };
     for _ in 0..reps {
         let (x, y, z) = (pick(&mut rng), pick(&mut rng), pick(&mut rng));
         let c = pick(&mut rng);
@@ -155,7 +155,7 @@ pub fn native_cases(ctx: &Ctx, out: &mut Vec<Case>) {
         }
     }
     // linear combinations of every length 0..=13 (chunking by 4), with zero coefficients
-    let max_len = if ctx.quick() { 10 } else { 40 };
+    let max_len = if !ctx.thorough() { 10 } else { 40 };
     for len in 0..=max_len {
         let mut o = ins(len);
         let terms: Vec<(F, usize)> = (0..len)
@@ -167,7 +167,7 @@ pub fn native_cases(ctx: &Ctx, out: &mut Vec<Case>) {
         out.push(case("lc", d.clone(), o, inputs, len));
     }
     // add_constants of every length 0..=8 with zero constants mixed in
-    for len in 0..=(if ctx.quick() { 7 } else { 12 }) {
+    for len in 0..=(if !ctx.thorough() { 7 } else { 12 }) {
         let mut o = ins(len);
         let cs: Vec<F> =
             (0..len).map(|_| if rng.gen_bool(0.25) { F::ZERO } else { pick(&mut rng) }).collect();
@@ -249,7 +249,7 @@ pub fn bit_cases(ctx: &Ctx, out: &mut Vec<Case>) {
         }
     }
     // and / or / xor on lists of every length 1..=6, all inputs for length <= 3
-    let max_len = if ctx.quick() { 5 } else { 9 };
+    let max_len = if !ctx.thorough() { 5 } else { 9 };
     for len in 1..=max_len {
         let combos: Vec<u64> = if len <= 3 {
             (0..(1u64 << len)).collect()
@@ -303,10 +303,10 @@ fn nd(mut c: Case) -> Case {
 
 /// Configurations (pow2range columns, max_bit_len).
 pub fn configs(ctx: &Ctx) -> Vec<Params> {
-    if ctx.quick() {
-        vec![p(4, 8), p(1, 8), p(2, 9), p(3, 10)]
+    if ctx.thorough() {
+        vec![p(4, 8), p(1, 8), p(2, 8), p(3, 8), p(2, 9), p(3, 10), p(4, 12), p(1, 13)]
     } else {
-        vec![p(4, 8), p(1, 8), p(2, 8), p(3, 8), p(2, 9), p(3, 10), p(4, 12), p(1, 16), p(4, 15)]
+        vec![p(4, 8), p(1, 8), p(2, 9), p(3, 10)]
     }
 }
 
@@ -317,7 +317,7 @@ pub fn decomp_cases(ctx: &Ctx, out: &mut Vec<Case>) {
     for d in configs(ctx) {
         let mbl = d.max_bit_len;
         // pow2range assertions on lists of every length
-        for len in 0..=(if ctx.quick() { 6 } else { 10 }) {
+        for len in 0..=(if !ctx.thorough() { 6 } else { 10 }) {
             let n = rng.gen_range(0..=mbl);
             let mut o = ins(len);
             o.push(op("rc", vec![Vs((0..len).collect()), N(n as u64)]));
@@ -325,14 +325,16 @@ pub fn decomp_cases(ctx: &Ctx, out: &mut Vec<Case>) {
             out.push(case("rc", d.clone(), o, inputs, len));
         }
         // assign_less_than_pow2 / assert_less_than_pow2 for bit lengths 0..=254
-        let ks: Vec<usize> = if ctx.quick() {
+        let ks: Vec<usize> = if !ctx.thorough() {
             let mut v: Vec<usize> = vec![0, 1, 2, 7, 8, 9, 15, 16, 17, 31, 32, 33, 63, 64, 65, 127, 128, 253, 254];
             for _ in 0..6 {
                 v.push(rng.gen_range(0..255));
             }
             v
-        } else {
+        } else if d.nr_cols == 4 && d.max_bit_len == 8 {
             (0..255).collect()
+        } else {
+            (0..255).step_by(5).collect()
         };
         for &k in &ks {
             let x = big_fe(&pick_below(&mut rng, &pow2(k)));
@@ -341,7 +343,7 @@ pub fn decomp_cases(ctx: &Ctx, out: &mut Vec<Case>) {
             out.push(case("asltp2", d.clone(), o, vec![x], 1));
         }
         // decompose_fixed_limb_size
-        let n_dfl = if ctx.quick() { 10 } else { 60 };
+        let n_dfl = if !ctx.thorough() { 10 } else { 60 };
         for _ in 0..n_dfl {
             let limb = rng.gen_range(1..=(mbl + 6).min(40));
             let top = if rng.gen_bool(0.3) { 254 } else { 70 };
@@ -351,7 +353,7 @@ pub fn decomp_cases(ctx: &Ctx, out: &mut Vec<Case>) {
             out.push(case("dfl", d.clone(), o, vec![x], 1));
         }
         // assign_many_small and the typed bulk assignments
-        for len in 0..=(if ctx.quick() { 5 } else { 9 }) {
+        for len in 0..=(if !ctx.thorough() { 5 } else { 9 }) {
             let k = rng.gen_range(0..=8usize);
             let inputs: Vec<F> = (0..len).map(|_| big_fe(&pick_below(&mut rng, &pow2(k)))).collect();
             out.push(nd(case("ams", d.clone(), vec![op("ams", vec![N(len as u64), N(k as u64)])], inputs, 1)));
@@ -363,7 +365,7 @@ pub fn decomp_cases(ctx: &Ctx, out: &mut Vec<Case>) {
             out.push(nd(case("inmany", d.clone(), vec![op("inmany", vec![N(len as u64)])], inputs, 1)));
         }
         // assert_lower_than_fixed / assign_lower_than_fixed: powers of two and other bounds
-        let n_alf = if ctx.quick() { 8 } else { 40 };
+        let n_alf = if !ctx.thorough() { 8 } else { 40 };
         for i in 0..n_alf {
             let bound: BigUint = match i % 5 {
                 0 => pow2(rng.gen_range(0..254)),
@@ -385,7 +387,7 @@ pub fn decomp_cases(ctx: &Ctx, out: &mut Vec<Case>) {
             out.push(case("alf2", d.clone(), o, vec![x], 1));
         }
         // comparisons of bounded values: equal, adjacent, extreme operands
-        let n_cmp = if ctx.quick() { 6 } else { 30 };
+        let n_cmp = if !ctx.thorough() { 6 } else { 30 };
         for i in 0..n_cmp {
             let (bx, by) = match i % 3 {
                 0 => (8usize, 8usize),
@@ -425,7 +427,7 @@ pub fn decomp_cases(ctx: &Ctx, out: &mut Vec<Case>) {
             }
         }
         // bit / byte / chunk decompositions, sgn0, recompositions
-        let n_dec = if ctx.quick() { 3 } else { 12 };
+        let n_dec = if !ctx.thorough() { 3 } else { 12 };
         for i in 0..n_dec {
             let x = match i % 4 {
                 0 => rand_fe(&mut rng),
@@ -475,7 +477,7 @@ pub fn decomp_cases(ctx: &Ctx, out: &mut Vec<Case>) {
             out.push(case("n2b2", d.clone(), o, vec![F::from(rng.gen_range(0..2u64))], 1));
         }
         // canonicity tests on bit strings
-        let n_can = if ctx.quick() { 4 } else { 16 };
+        let n_can = if !ctx.thorough() { 4 } else { 16 };
         for _ in 0..n_can {
             let len = rng.gen_range(1..=12usize);
             let v = rng.gen_range(0..(1u64 << len));
@@ -493,7 +495,7 @@ pub fn decomp_cases(ctx: &Ctx, out: &mut Vec<Case>) {
             }
         }
         // div_rem with a declared dividend bound
-        let n_div = if ctx.quick() { 4 } else { 16 };
+        let n_div = if !ctx.thorough() { 4 } else { 16 };
         for _ in 0..n_div {
             let bbits = rng.gen_range(2..=200usize);
             let bound = pow2(bbits) - 1u8;
